@@ -14,7 +14,14 @@ representative per class of its input partition, in a closed stub world:
 * an argparse model (add_argument / parse_args / print_help / error, FileType opens while arguments are parsed),
 * for the CLI the two library functions are rule-supplied stubs that return a text naming the arguments they received,
   so "what the tool writes is what the library returns for the content of the input file" is decided independently of
-  what the library does.
+  what the library does; the option values of the representative command lines are chosen so that every usual
+  normalisation (sorting, de-duplication, case folding, stripping) of a value on its way to the library is visible,
+* sets of the evaluated program iterate in one fixed arbitrary order (HSet): a result that depends on set order is the
+  same in every run of the check, whatever PYTHONHASHSEED is,
+* state: the calls of a sequence are evaluated in one world (memoising decorators and module-level containers live in
+  it) and compared with the same calls in fresh worlds; mutable parts of a result are emptied by the 'caller' between
+  the calls.  Tests and handlers that were taken are recorded as events - used only to explain a violation (the test
+  that separates the wrong rows, the handler that swallowed an exception), never to decide one.
 
 Nothing of rnapolis is imported or executed; only literals, operators, builtins on folded values and the stubs are
 interpreted.  A construct outside the supported fragment ends the evaluation as 'not evaluable' (the caller then falls
@@ -650,14 +657,14 @@ class ParserStub:
 
     def __init__(self, world: World):
         self.world = world
-        self.specs: List[Tuple[Tuple[str, ...], Dict[str, Any]]] = []
+        self.specs: List[Tuple[Tuple[str, ...], Dict[str, Any], Optional[int]]] = []
 
     def add_argument(self, *names, **kw):
         if not names or not all(isinstance(x, str) for x in names) or set(kw) - self._KW:
             raise NotConst(f"add_argument form not modelled: {names} {sorted(kw)}")
         if kw.get("action") not in (None, "store", "store_true", "store_false"):
             raise NotConst(f"argparse action {kw.get('action')!r} not modelled")
-        self.specs.append((names, kw))
+        self.specs.append((names, kw, self.world.line))
 
     def add_mutually_exclusive_group(self, required=False):
         return self
@@ -670,7 +677,7 @@ class ParserStub:
             raise NotConst("parse_args(<explicit list>)")
         ns = NamespaceStub()
         given = dict(self.world.argv)
-        for names, kw in self.specs:
+        for names, kw, line in self.specs:
             positional = not names[0].startswith("-")
             long = [x for x in names if x.startswith("--")]
             dest = kw.get("dest") or (names[0] if positional else (long[0] if long else names[0]).lstrip("-")).replace("-", "_")
@@ -687,6 +694,9 @@ class ParserStub:
                     if kw.get("choices") is not None and raw not in kw["choices"]:
                         self.error(f"argument {names[0]}: invalid choice")
                     val = ty(raw) if ty is not None else raw
+                    if ty is not None and (type(val) is not type(raw) or val != raw):
+                        # the parser hands the program something else than the text on the command line
+                        self.world.events.append(("converted", hit[0], raw, val, line, getattr(ty, "__name__", type(ty).__name__)))
             else:
                 if kw.get("required"):
                     self.error(f"the following arguments are required: {names[0]}")
@@ -736,6 +746,26 @@ class SysStub:
 # ---------------------------------------------------------------------------------------------------------------------
 # evaluator: BlockEval + with / while / raise / try-as / calls of module functions / keywords / builtin methods
 # ---------------------------------------------------------------------------------------------------------------------
+def _arbitrary(x) -> str:
+    import hashlib
+
+    return hashlib.md5(repr(x).encode("utf-8", "replace")).hexdigest()
+
+
+class HSet(set):
+    """A set of the evaluated program.  The language leaves its iteration order open (for str elements it changes with
+    PYTHONHASHSEED); here it is one fixed order that is neither the insertion order nor the sorted order, so that a result
+    which depends on it is the same in every run of the check (deterministic evidence) and visibly not the 'natural' one."""
+
+    def __iter__(self):
+        return iter(sorted(set.__iter__(self), key=_arbitrary))
+
+
+class HFrozenSet(frozenset):
+    def __iter__(self):
+        return iter(sorted(frozenset.__iter__(self), key=_arbitrary))
+
+
 _XB: Dict[str, Any] = {
     "getattr": getattr,
     "hasattr": hasattr,
@@ -751,7 +781,7 @@ _XB: Dict[str, Any] = {
 }
 _XB.update({n: getattr(builtins, n) for n in dir(builtins) if isinstance(getattr(builtins, n), type) and issubclass(getattr(builtins, n), BaseException)})
 _XB.update({n: getattr(builtins, n) for n in ("list", "dict", "tuple", "set", "frozenset", "str", "int", "float", "bool", "bytes", "object")})
-_PLAIN = (str, list, dict, set, tuple, frozenset, bytes, int, float)
+_PLAIN = (str, list, dict, set, tuple, frozenset, bytes, int, float, HSet, HFrozenSet)
 _LAZY = ("zip", "range", "reversed", "enumerate", "filter", "map")  # lazy in the language: evaluated by the real builtin (keywords included), result materialised
 
 
@@ -802,6 +832,14 @@ class XFolder(Folder):
     def child(self, extra: Dict[str, Any]) -> "XFolder":
         return XFolder(self.repo, self.module, {**self.local, **extra}, self.cls)
 
+    def fold(self, node: ast.AST) -> Any:
+        v = Folder.fold(self, node)
+        if type(v) is set:
+            return HSet(v)
+        if type(v) is frozenset:
+            return HFrozenSet(v)
+        return v
+
     def _f_Name(self, n):
         if n.id not in self.local and n.id in _XB and _XB[n.id] is not None:
             try:
@@ -824,6 +862,8 @@ class XFolder(Folder):
             if hasattr(base, "__dict__") and n.attr in vars(base):
                 return getattr(base, n.attr)
             raise NotConst(f"attribute {norm_(n)}")
+        if isinstance(n.value, ast.Name) and n.value.id in ("str", "list", "dict", "tuple", "set", "frozenset", "int", "float", "bytes") and not n.attr.startswith("_"):
+            return getattr(_XB[n.value.id], n.attr)  # unbound method of a builtin type (type=str.strip, key=str.lower); AttributeError is the program's own
         return Folder._f_Attribute(self, n)
 
     @staticmethod
@@ -890,6 +930,8 @@ class XFolder(Folder):
             if isinstance(recv, dict) and f.attr in ("keys", "values", "items"):
                 r = list(r)
             return r
+        if recv is None:
+            raise AttributeError(f"'NoneType' object has no attribute '{f.attr}'")  # the program's own fault, e.g. an option that was not given
         raise NotConst(f"method {f.attr} of {type(recv).__name__}")
 
 
@@ -971,7 +1013,7 @@ class Runtime:
                         v = XFolder(self.repo, M, env).fold(st.value)
                     except Exception:
                         continue
-                    if type(v) not in (list, dict, set):
+                    if type(v) not in (list, dict, set, HSet):
                         continue
                     self.world.globals[tgt.id] = v
                 env[tgt.id] = self.world.globals[tgt.id]
@@ -990,6 +1032,7 @@ class Runtime:
                 key = (fn.name, args, tuple(sorted(kw.items())))
                 hash(key)
                 if key in self.world.memo:
+                    self.world.events.append(("memo-hit", fn.name, fn.lineno, decs[0]))
                     return self.world.memo[key]
             r = self.call_function(fn, args, kw, closure)
             if memo:
@@ -997,6 +1040,7 @@ class Runtime:
             return r
 
         call._interpreted = True  # type: ignore[attr-defined]
+        call.__name__ = fn.name
         return call
 
     def bind(self, fn: ast.FunctionDef, args: Sequence[Any], kw: Dict[str, Any], env: Dict[str, Any]) -> Dict[str, Any]:
@@ -1129,6 +1173,10 @@ class FuncEval(BlockEval):
             finally:
                 for m in reversed(mgrs):
                     m._exit()
+        elif isinstance(st, ast.If):
+            t = self.fold(st.test)
+            self.rt.world.events.append(("if", st.lineno, bool(t), norm_(st.test)))  # trace for explanations, never for a verdict
+            self._block(st.body if t else st.orelse)
         elif isinstance(st, ast.For):
             it = self.fold(st.iter)
             try:
@@ -1190,6 +1238,7 @@ class FuncEval(BlockEval):
                         raise
                     for h in st.handlers:
                         if self._handler_matches(h, ex):
+                            self.rt.world.events.append(("caught", type(ex).__name__, _scrub(str(ex))[:80], self.rt.world.line, h.lineno, "except" + (" " + norm_(h.type) if h.type is not None else "")))
                             if h.name:
                                 self.env[h.name] = ex
                             self.exc.append(ex)
@@ -1256,6 +1305,7 @@ class FuncEval(BlockEval):
 class Outcome:
     def __init__(self, kind: str, value: Any = None, world: Optional[World] = None):
         self.kind, self.value, self.world = kind, value, world  # kind: 'return' | 'raise' | 'exit' | 'unknown'
+        self.hint_line: Optional[int] = None  # line of the construct an explanation points at
 
     def __repr__(self):
         return f"{self.kind}:{self.value!r}"
@@ -1266,7 +1316,7 @@ def evaluate(repo, tree: ast.Module, fname: str, args: Sequence[Any], kw: Dict[s
         rt = Runtime(repo, tree, world, overrides, cov, entered)
         if fname not in rt.funcs:
             return Outcome("unknown", f"function {fname} not found", world)
-        return Outcome("return", rt.call_function(rt.funcs[fname], list(args), dict(kw)), world)
+        return Outcome("return", rt.module_env[fname](*args, **kw), world)  # through its decorators (a memoised anchor is called as its callers call it)
     except Unknown as ex:
         return Outcome("unknown", str(ex), world)
     except SystemExit as ex:
@@ -1311,6 +1361,16 @@ def base_doc() -> list:
             ["tail", ["k"], [["v"]]],
         ]],
         ["B2", [["cat2", ["a", "b"], [["x", "y"]]]]],
+    ]
+
+
+def case_doc() -> list:
+    """Names and values that differ only in letter case or by a surrounding blank: the library compares them exactly."""
+    return [
+        ["B1", [
+            ["cat", ["a", "A", "b"], [["1", "2", "p"], ["3", "4", "P"], ["5", "6", " p"], ["7", "8", "p"], ["9", "0", "p "]]],
+            ["Cat", ["a", "b"], [["x", "y"]]],
+        ]],
     ]
 
 
@@ -1417,6 +1477,8 @@ def check_copy(chk, fi) -> Optional[str]:
         ("the category is absent", text, ("nocat", "a", "b")),
         ("the source item is absent (target present)", text, ("cat", "zz", "b")),
         ("source and target items are absent", text, ("cat", "zz", "yy")),
+        ("the category exists only with other letter case", text, ("CAT", "a", "b")),
+        ("the source item exists only with other letter case", text, ("cat", "B", "a")),
     ]
     for tag, t, a in exits:
         o = _run_lib(repo, tree, fi.qualname, t, a, cov, entered)
@@ -1436,6 +1498,8 @@ def check_copy(chk, fi) -> Optional[str]:
         ("source = target", doc, ("cat", "b", "b")),
         ("first category of the block", doc, ("head", "y", "x")),
         ("category without rows, new target", norows, ("cat", "a", "n")),
+        ("categories and items that differ only in letter case", case_doc(), ("cat", "a", "A")),
+        ("new target that differs from an item only in letter case", case_doc(), ("Cat", "b", "B")),
     ]
     for tag, d, a in edits:
         t = text_of(d)
@@ -1445,29 +1509,65 @@ def check_copy(chk, fi) -> Optional[str]:
             continue
         want = want_copy(d, *a)
         bad = _judge_doc(o, want, a[0], a[1], a[2], t)
-        chk.expect(bad is None, "edit-eval", _site(fi, (_event(o, "defaulted") or [None])[-1]) if bad else fi.where, f"copy {a[1]} -> {a[2]} ({tag}): every row's target equals its source, nothing else changes, the written document contains the edit", f"copy {a[1]} -> {a[2]} in `{a[0]}` ({tag}): {bad}", K(fi, f"edit-eval:{tag}"), found=_short(o.value))
+        chk.expect(bad is None, "edit-eval", _site(fi, (_event(o, "defaulted") or [None])[-1] or o.hint_line) if bad else fi.where, f"copy {a[1]} -> {a[2]} ({tag}): every row's target equals its source, nothing else changes, the written document contains the edit", f"copy {a[1]} -> {a[2]} in `{a[0]}` ({tag}): {bad}", K(fi, f"edit-eval:{tag}"), found=_short(o.value))
     # -- a second call in the same process starts from the text again ----------------------------------------------------------------
-    w = World()
-    o1 = _run_lib(repo, tree, fi.qualname, text, ("cat", "a", "n1"), cov, entered, w)
-    o2 = _run_lib(repo, tree, fi.qualname, text, ("cat", "b", "n2"), cov, entered, w)
-    o3 = _run_lib(repo, tree, fi.qualname, text, ("cat", "b", "n2"), cov, entered)
-    if "unknown" in (o1.kind, o2.kind, o3.kind):
-        why = why or f"repeated call: {[o.value for o in (o1, o2, o3) if o.kind == 'unknown'][0]}"
-    else:
-        _repeat(chk, fi, o2, o3, "copy a -> n1, then copy b -> n2", "cat", "b", "n2")
+    seq = [
+        ("copy a -> n1", ("cat", "a", "n1"), "a", "n1"),
+        ("copy b -> n2 (another source)", ("cat", "b", "n2"), "b", "n2"),
+        ("copy a -> n3 (the first source again, another target)", ("cat", "a", "n3"), "a", "n3"),
+        ("copy a -> n1 (the first call again)", ("cat", "a", "n1"), "a", "n1"),
+    ]
+    why = why or _repeat_calls(chk, fi, repo, tree, text, seq, cov, entered)
     _coverage(chk, fi, tree, cov, entered, why)
     return why
 
 
-def _repeat(chk, fi, second: Outcome, fresh: Outcome, what: str, cat, src, dst) -> None:
-    """The same call as the second of two calls in one process and as a first call: the results must agree."""
+def _disown(v: Any) -> None:
+    """The caller owns what it was handed and may change it: mutable parts of a result are emptied after they were looked at."""
+    for x in v if isinstance(v, tuple) else (v,):
+        if type(x) in (dict, list, set, HSet):
+            x.clear()
+
+
+def _repeat_calls(chk, fi, repo, tree, text, seq, cov, entered) -> Optional[str]:
+    """The calls of `seq` made one after the other in one process, on the same text; every call after the first is compared
+    with the same call made as the only one of a fresh process: no state of an earlier call (a cache of parsed containers,
+    a memoised result whose mutable part the caller changed, a module-level container) may reach a later one."""
+    w = World()
+    done: List[str] = []
+    for k, (label, args, src, dst) in enumerate(seq):
+        n_ev = len(w.events)
+        o = _run_lib(repo, tree, fi.qualname, text, args, cov, entered, w)
+        if o.kind == "unknown":
+            return f"repeated call: {o.value}"
+        if k:
+            fresh = _run_lib(repo, tree, fi.qualname, text, args, cov, entered)
+            if fresh.kind == "unknown":
+                return f"repeated call: {fresh.value}"
+            hit = next((e for e in w.events[n_ev:] if e[0] == "memo-hit"), None)
+            _repeat(chk, fi, o, fresh, "; ".join(done) + "; then " + label, args[0], src, dst, hit, k)
+            _disown(fresh.value)
+        _disown(o.value)
+        done.append(label)
+    return None
+
+
+def _repeat(chk, fi, second: Outcome, fresh: Outcome, what: str, cat, src, dst, hit: Optional[Tuple] = None, k: int = 1) -> None:
+    """The same call as a later call of a process and as the only call of a fresh one: the results must agree."""
     same = second.kind == fresh.kind and second.value == fresh.value
     how = ""
     if not same:
-        a, b = (second.value[0] if isinstance(second.value, tuple) else second.value), (fresh.value[0] if isinstance(fresh.value, tuple) else fresh.value)
+        a, b = (second.value[0] if isinstance(second.value, tuple) and second.value else second.value), (fresh.value[0] if isinstance(fresh.value, tuple) and fresh.value else fresh.value)
         da, db = parse(a), parse(b)
-        how = (doc_diff(da, db, cat, src, dst) if da is not None and db is not None else None) or f"{_short(second.value)} instead of {_short(fresh.value)}"
-    chk.expect(same, "repeat-eval", fi.where, f"a call gives the same result as the second call in a process as it gives as the first ({what}): no state survives a call", f"two calls with the same text ({what}): the second call does not start from the text again - compared with the same call made first, {how}; state of the first call (a cache, a module-level container) leaks into the second", K(fi, "repeat-eval"))
+        if a == b and isinstance(second.value, tuple) and isinstance(fresh.value, tuple) and len(second.value) == len(fresh.value) == 2:
+            how = f"the document is the same but the returned mapping is {_short(second.value[1])} instead of {_short(fresh.value[1])}"
+        else:
+            how = (doc_diff(da, db, cat, src, dst) if da is not None and db is not None else None) or f"the result is {_short(second.value)} instead of {_short(fresh.value)}"
+        if hit is not None:
+            how += f" - the call gets the result of `{hit[1]}` (line {hit[2]}) from its `@{hit[3]}` instead of computing it again, and the object handed out the first time was changed since (the parsed containers are edited in place; a returned mapping belongs to the caller)"
+        else:
+            how += " - state of an earlier call (a cache, a module-level container) leaks into this one"
+    chk.expect(same, "repeat-eval", _site(fi, hit[2]) if (hit is not None and not same) else fi.where, f"a call gives the same result late in a process as it gives in a fresh one ({what}): no state survives a call", f"calls with the same text in one process ({what}): the last call does not start from the text again - compared with the same call made in a fresh process, {how}", K(fi, f"repeat-eval:{k}"))
 
 
 def _unchanged(o: Outcome, text: str) -> Optional[str]:
@@ -1496,10 +1596,31 @@ def _judge_doc(o: Outcome, want, cat, src, dst, text: Optional[str] = None) -> O
         return f"the result {_short(o.value)} is not the serialised document"
     d = doc_diff(got, want, cat, src, dst)
     if d is not None:
+        d += _row_hint(o, got, want, cat)
         e = _event(o, "defaulted")
         if e is not None:
             d += f" - DataCategory.getValueOrDefault('{e[1]}', {e[2]}) hands out its default {e[4]!r} for the stored value {e[3]!r}: it treats '.', '?' and None as missing values, so mmCIF null markers are rewritten on the way"
     return d
+
+
+def _row_hint(o: Outcome, got, want, cat) -> str:
+    """Explanation only: a test that is evaluated once per row and separates exactly the rows that come out wrong from the others."""
+    g, w = _find(got, cat), _find(want, cat)
+    if not g or not w or len(g[2]) != len(w[2]) or o.world is None:
+        return ""
+    n = len(w[2])
+    bad = [k for k in range(n) if g[2][k] != w[2][k]]
+    if not bad or len(bad) == n:
+        return ""
+    by_test: Dict[Tuple[int, str], List[bool]] = {}
+    for e in o.world.events:
+        if e[0] == "if":
+            by_test.setdefault((e[1], e[3]), []).append(e[2])
+    for (line, src), outs in sorted(by_test.items()):
+        if len(outs) == n and len({outs[k] for k in bad}) == 1 and all(outs[k] != outs[bad[0]] for k in range(n) if k not in bad):
+            o.hint_line = line
+            return f" - the rows that come out wrong ({', '.join(str(k) for k in bad)}) are exactly the rows for which `{src}` (line {line}) is {outs[bad[0]]}: the edit depends on the value of the row"
+    return ""
 
 
 def _event(o: Outcome, kind: str) -> Optional[Tuple]:
@@ -1510,11 +1631,11 @@ def _site(fi, line: Optional[int]) -> str:
     return f"{fi.module.relpath}:{line} {fi.qualname}" if line else fi.where
 
 
-def _short(v: Any) -> str:
+def _short(v: Any, limit: int = 90) -> str:
     import re
 
     s = re.sub(r" at 0x[0-9a-fA-F]+", "", re.sub(r"<checks\.c20e\.(\w+) object at 0x[0-9a-fA-F]+>", r"<\1>", repr(v)))
-    return s if len(s) <= 90 else s[:87] + "..."
+    return s if len(s) <= limit else s[: limit - 3] + "..."
 
 
 def _coverage(chk, fi, tree, cov, entered, why) -> None:
@@ -1540,6 +1661,8 @@ def check_replace(chk, fi) -> Optional[str]:
         ("the text holds no data block", "", ("cat", "b", "XYZ")),
         ("the category is absent", text, ("nocat", "b", "XYZ")),
         ("the item is absent", text, ("cat", "zz", "XYZ")),
+        ("the category exists only with other letter case", text, ("Cat", "b", "XYZ")),
+        ("the item exists only with other letter case", text, ("cat", "B", "XYZ")),
     ]
     for tag, t, a in exits:
         o = _run_lib(repo, tree, fi.qualname, t, a, cov, entered)
@@ -1551,9 +1674,12 @@ def check_replace(chk, fi) -> Optional[str]:
     edits = [
         ("repeated values, '.' and '?' are values like any other", doc, ("cat", "b", "WXYZ")),
         ("exactly as many symbols as distinct values", doc, ("cat", "a", "vwxyz")),
+        ("alphabet not in code-point order: the symbols are handed out by position", doc, ("cat", "b", "zYx1")),
         ("first item of the first category", doc, ("head", "x", "0123")),
         ("a value equal to a symbol", [["B1", [["cat", ["a"], [["Y"], ["X"], ["Y"]]]]]], ("cat", "a", "XY")),
         ("category without rows", [["B1", [["cat", ["a", "b"], []]]]], ("cat", "a", "XY")),
+        ("values that differ only in letter case or by a blank are distinct values", case_doc(), ("cat", "b", "WXYZ")),
+        ("items that differ only in letter case", case_doc(), ("cat", "A", "0123456789")),
     ]
     for tag, d, a in edits:
         t = text_of(d)
@@ -1563,7 +1689,7 @@ def check_replace(chk, fi) -> Optional[str]:
             continue
         want_doc, want_map = want_replace(d, *a)
         bad = _judge_replace(o, want_doc, want_map, a[0], a[1], t)
-        chk.expect(bad is None, "edit-eval", fi.where, f"replace `{a[1]}` with {a[2]!r} ({tag}): the item is the image of the first-seen mapping {want_map}, which is returned; nothing else changes", f"replace `{a[1]}` of `{a[0]}` with {a[2]!r} ({tag}): {bad}", K(fi, f"edit-eval:{tag}"), found=_short(o.value))
+        chk.expect(bad is None, "edit-eval", _site(fi, o.hint_line) if bad else fi.where, f"replace `{a[1]}` with {a[2]!r} ({tag}): the item is the image of the first-seen mapping {want_map}, which is returned; nothing else changes", f"replace `{a[1]}` of `{a[0]}` with {a[2]!r} ({tag}): {bad}", K(fi, f"edit-eval:{tag}"), found=_short(o.value))
     # the default alphabet: as many distinct symbols as the signature promises, no blank
     try:
         rt = Runtime(repo, tree, World())
@@ -1594,16 +1720,20 @@ def check_replace(chk, fi) -> Optional[str]:
         if o.kind != "return":
             chk.ok("mapping-total", fi.where, f"{len(distinct)} distinct values, alphabet {a[2]!r} ({tag}): the call fails ({o.value}) - no partly substituted file is produced")
             continue
-        bad = _judge_total(o, d, a[0], a[1], col)
-        chk.expect(bad is None, "mapping-total", fi.where, f"{len(distinct)} distinct values, alphabet {a[2]!r} ({tag}): the result is still a total injective substitution", f"item `{a[1]}` has {len(distinct)} distinct values {distinct} but the alphabet {a[2]!r} only {len(a[2])} symbols ({tag}); the call returns normally and {bad}", K(fi, f"mapping-total:{tag}"), found=_short(o.value))
-    w = World()
-    o1 = _run_lib(repo, tree, fi.qualname, text, ("cat", "b", "WXYZ"), cov, entered, w)
-    o2 = _run_lib(repo, tree, fi.qualname, text, ("cat", "a", "vwxyz"), cov, entered, w)
-    o3 = _run_lib(repo, tree, fi.qualname, text, ("cat", "a", "vwxyz"), cov, entered)
-    if "unknown" in (o1.kind, o2.kind, o3.kind):
-        why = why or f"repeated call: {[o.value for o in (o1, o2, o3) if o.kind == 'unknown'][0]}"
-    else:
-        _repeat(chk, fi, o2, o3, "replace b, then replace a", "cat", None, "a")
+        bad = _judge_total(o, d, a[0], a[1], col, a[2])
+        site = fi.where
+        c = _event(o, "caught")
+        if bad is not None and c is not None:
+            bad += f" - `{c[5]}` (line {c[4]}) swallows the {c[1]} ({c[2]}) raised at line {c[3]}, so running out of symbols no longer stops the call"
+            site = _site(fi, c[4])
+        chk.expect(bad is None, "mapping-total", site, f"{len(distinct)} distinct values, alphabet {a[2]!r} ({tag}): the result is still a total injective substitution into the alphabet", f"item `{a[1]}` has {len(distinct)} distinct values {distinct} but the alphabet {a[2]!r} only {len(a[2])} symbols ({tag}); the call returns normally and {bad}", K(fi, f"mapping-total:{tag}"), found=_short(o.value))
+    seq = [
+        ("replace b with 'WXYZ'", ("cat", "b", "WXYZ"), None, "b"),
+        ("replace a with 'vwxyz' (another item)", ("cat", "a", "vwxyz"), None, "a"),
+        ("replace b with 'ZYXW' (the first item again, another alphabet)", ("cat", "b", "ZYXW"), None, "b"),
+        ("replace b with 'WXYZ' (the first call again)", ("cat", "b", "WXYZ"), None, "b"),
+    ]
+    why = why or _repeat_calls(chk, fi, repo, tree, text, seq, cov, entered)
     _coverage(chk, fi, tree, cov, entered, why)
     return why
 
@@ -1620,13 +1750,15 @@ def _judge_replace(o: Outcome, want_doc, want_map, cat, col, text: Optional[str]
         return f"the first component {_short(o.value[0])} is not the serialised document"
     d = doc_diff(got, want_doc, cat, None, col)
     if d is not None:
-        return d
+        return d + _row_hint(o, got, want_doc, cat)
     if o.value[1] != want_map:
         return f"the returned mapping is {o.value[1]!r}, the substitution that was applied is {want_map!r}"
     return None
 
 
-def _judge_total(o: Outcome, doc, cat, col, old: List[str]) -> Optional[str]:
+def _judge_total(o: Outcome, doc, cat, col, old: List[str], values: str = "") -> Optional[str]:
+    """A normal return although the item has more distinct values than the alphabet has symbols.  The result must be the
+    image of a total, injective mapping into the alphabet - which cannot exist (pigeonhole): the reason found first is named."""
     if not (isinstance(o.value, tuple) and len(o.value) == 2 and isinstance(o.value[1], dict)):
         return f"the result {_short(o.value)} is not (text, mapping)"
     got = parse(o.value[0])
@@ -1645,6 +1777,10 @@ def _judge_total(o: Outcome, doc, cat, col, old: List[str]) -> Optional[str]:
         return f"the mapping {mp!r} is not injective: distinct values are merged (column becomes {new})"
     if new != [mp[v] for v in old]:
         return f"the column {new} is not the image of the returned mapping {mp!r}"
+    outside = [v for v in dict.fromkeys(old) if not (isinstance(mp[v], str) and mp[v] in list(values))]
+    if outside:
+        kept = all(mp[v] == v for v in outside)
+        return f"the values {outside} get the images {[mp[v] for v in outside]}, which are not symbols of the alphabet {values!r}" + (": they are kept as they are next to substituted ones, so the item is not the image of a mapping into the alphabet and a kept value can collide with a symbol handed out for another one" if kept else "") + f" (column becomes {new})"
     return None
 
 
@@ -1706,7 +1842,42 @@ CLI_CASES = [
     ("only --replace", {"--category": "cat", "--replace": "a"}, [None, "replace_value"]),
     ("only --values", {"--category": "cat", "--values": "XYZ"}, [None, "replace_value"]),
     ("copy and replace together", {"--category": "cat", "--copy-from": "a", "--copy-to": "b", "--replace": "a", "--values": "XYZ"}, ["copy_from_to", "replace_value", None]),
+    # an option value is text the user chose: it reaches the library as it is.  Representatives on which the usual
+    # "clean-ups" are visible: order other than code-point order, a repeated symbol, capitals, digits, blanks, punctuation
+    ("replace, alphabet not in code-point order", {"--category": "cat", "--replace": "a", "--values": "zYx10b"}, ["replace_value"]),
+    ("replace, alphabet with a repeated symbol", {"--category": "cat", "--replace": "a", "--values": "XYXZ"}, ["replace_value"]),
+    ("replace, alphabet with blanks and punctuation", {"--category": "cat", "--replace": "a", "--values": " A,b;'C\" "}, ["replace_value"]),
+    ("copy, names with capitals, digits, blanks and punctuation", {"--category": " Cat_2.x", "--copy-from": "B_item ", "--copy-to": "a.Item-1"}, ["copy_from_to"]),
+    ("replace, names with capitals, digits, blanks and punctuation", {"--category": "Cat_2.x ", "--replace": " B_item", "--values": "XYZ"}, ["replace_value"]),
 ]
+_CLI_OPTS = {"copy_from_to": ["--category", "--copy-from", "--copy-to"], "replace_value": ["--category", "--replace", "--values"]}
+
+
+def _str_change(raw: Any, val: Any) -> str:
+    """What happened to an option value on its way to the library, in words."""
+    if not isinstance(val, str) or not isinstance(raw, str):
+        return f"a {type(val).__name__} instead of the text"
+    if sorted(raw) == sorted(val):
+        return "the same symbols in another order"
+    if set(raw) == set(val) and len(val) < len(raw):
+        return "repeated symbols removed" + ("" if list(dict.fromkeys(raw)) == list(val) else " and the order changed")
+    if raw.strip() == val:
+        return "surrounding blanks removed"
+    if raw.lower() == val.lower():
+        return "letter case changed"
+    if val in raw:
+        return "shortened"
+    return "another text"
+
+
+def _arg_changes(w: "World", opts: Dict[str, Any]) -> List[Tuple[str, str, str, Any, Any]]:
+    """(library function, option, parameter, given, received) for every option that was given and reaches the library changed."""
+    out = []
+    for name, b, _ in w.lib_calls:
+        for p, n in zip(list(b)[1:4], _CLI_OPTS.get(name, [])):
+            if n in opts and (type(b[p]) is not type(opts[n]) or b[p] != opts[n]):
+                out.append((name, n, p, opts[n], b[p]))
+    return out
 
 
 def check_cli(chk, fi) -> Optional[str]:
@@ -1774,7 +1945,10 @@ def check_cli(chk, fi) -> Optional[str]:
             tr = next((e for e in w.events if e[0] == "truncate" and e[1] == outp), None)
             rd = next((i for i, e in enumerate(w.events) if e[0] == "read" and e[1] == inp), None)
             early = tr is not None and (rd is None or w.events.index(tr) < rd)
-            chk.violation(rule, _site(fi, tr[2]) if early else fi.where, f"{label}: " + _explain_cli(o, w, got, want, before, inp, outp, content, inplace), K(fi, f"{rule}:{tag}"), expected=[_short(x) for x in want], found=_short(got))
+            changed = _arg_changes(w, opts)
+            conv = next((e for e in w.events if e[0] == "converted" and changed and e[1] == changed[0][1]), None)
+            site = _site(fi, tr[2]) if early else (_site(fi, conv[4]) if conv is not None else fi.where)
+            chk.violation(rule, site, f"{label}: " + _explain_cli(o, w, got, want, before, inp, outp, content, inplace, opts), K(fi, f"{rule}:{tag}"), expected=[_brief(x) for x in want], found=_brief(got))
     if why is None:
         miss = uncovered(cov, [f for n, f in funcs.items() if n == fi.qualname or (n in entered and n not in ("copy_from_to", "replace_value"))])
         if miss:
@@ -1784,7 +1958,16 @@ def check_cli(chk, fi) -> Optional[str]:
     return why
 
 
-def _explain_cli(o: Outcome, w: World, got, want, before, inp, outp, content, inplace) -> str:
+def _brief(v: Any) -> str:
+    """A file content for the evidence: the document text inside a library-stub result is named, not spelled out."""
+    import re
+
+    if isinstance(v, str):
+        v = re.sub(r"=(['\"])" + re.escape(MAGIC) + r".*?\\n\1", "=<the text of the input file>", v)
+    return _short(v, 170)
+
+
+def _explain_cli(o: Outcome, w: World, got, want, before, inp, outp, content, inplace, opts: Optional[Dict[str, Any]] = None) -> str:
     ev = w.events
     first = lambda kind, path: next((i for i, e in enumerate(ev) if e[0] == kind and len(e) > 1 and e[1] == path), None)
     tr, rd = first("truncate", outp), first("read", inp)
@@ -1810,6 +1993,12 @@ def _explain_cli(o: Outcome, w: World, got, want, before, inp, outp, content, in
     if tr is not None and rd is not None and tr < rd and not inplace:
         pass
     texts = [c[2] for c in calls]
+    changed = _arg_changes(w, opts or {})
+    if changed and (got in texts or o.kind != "return"):
+        name, n, p, raw, val = changed[0]
+        conv = next((e for e in ev if e[0] == "converted" and e[1] == n), None)
+        how = f" - `add_argument({n!r}, type={conv[5]})` (line {conv[4]}) converts the text while the arguments are parsed" if conv is not None else ""
+        return head + f"option `{n} {raw!r}` reaches {name} as {p}={_short(val)} ({_str_change(raw, val)}){how}: the file written is not what {name} returns for the arguments that were given"
     if got in texts or (isinstance(got, str) and any(t in got for t in texts)):
         if got in texts:
             return head + f"the library is called with other arguments than the command line gives: {_short(got)} (expected {_short(next(x for x in want if x is not None))})"
